@@ -2,6 +2,7 @@ import BddProofs.Ite
 import BddProofs.IteTotal
 import BddProofs.Init
 import BddProofs.DriverSem
+import BddProofs.DriverTotal
 /-! # C02 — if-then-else computes (f ∧ g) ∨ (¬f ∧ h) for every triple
 
 `ITE φf φg φh = fun e => if φf e then φg e else φh e`.  `Good s` is the invariant of every reachable
@@ -67,9 +68,23 @@ theorem C02_driver_reply {fuel : Nat} {s s' : St} {a b c h : Ref} (hg : Good s)
   obtain ⟨g', sub, ψ, vψ, φa, φb, φc, va, vb, vc, e⟩ := exec_handle_sem hg hx
   exact ⟨g', sub, φa, φb, φc, va, vb, vc, e ▸ vψ⟩
 
+
+/-- … and termination without panicking, storage capacity permitting, through the same dispatcher: with
+the uniform fuel bound `driverFuel V` (`V` bounds the stored variables) the only failure an accepted
+`ite` request can report is a full table — never an assertion, never out of fuel.  (`exec_total` is the
+same for every request kind except the interrupted collection, which asserts by design; `exec_never_fails`:
+`ite_constant`, `is_implies`, `size` and collections cannot fail at all.) -/
+theorem C02_driver_total {V fuel : Nat} {s : St} {a b c : Ref} (hg : Good s) (hV : VarsLe s V)
+    (hfuel : driverFuel V ≤ fuel) (e : Fault) (s' : St)
+    (hx : exec fuel s (.ite a b c) = .handle (.error (e, s'))) : e = .storageFull := by
+  have h := exec_total (V := V) (fuel := fuel) (s := s) (.ite a b c) hg hV trivial hfuel
+  rw [hx] at h
+  exact h e s' rfl
+
 end P
 #print axioms P.C02_ite_sound
 #print axioms P.C02_ite_total
 #print axioms P.C02_ite_formula
 #print axioms P.C02_shortcut_F0F
 #print axioms P.C02_driver_reply
+#print axioms P.C02_driver_total
